@@ -80,7 +80,7 @@ pub fn run_c02(shard: &Shard) -> i32 {
                 if rng.chance(1, 2) { spec.cfg.cutoff_k = 1 + rng.below(40); }
             }
             _ => {
-                spec.cfg.par = Some(Par { n0: *rng.pick(&[2usize, 3, 4, 8]), n1: None, mode: if rng.chance(1, 2) { ParMode::Delay(rng.next() >> 1) } else { ParMode::Free } });
+                spec.cfg.par = Some(Par { n0: *rng.pick(&[2usize, 3, 4, 8]), n1: None, mode: if rng.chance(1, 2) && !spec.is_big() { ParMode::Delay(rng.next() >> 1) } else { ParMode::Free } });
                 if rng.chance(1, 3) { spec.cfg.cutoff_k = 1 + rng.below(60); }
             }
         }
@@ -156,7 +156,7 @@ pub fn run_c09(shard: &Shard) -> i32 {
         match kind {
             0 => {}
             1 => { spec.cfg.par = Some(Par { n0: 2 + rng.usize(2), n1: None, mode: sched_mode(rng, true) }); }
-            _ => { spec.cfg.par = Some(Par { n0: *rng.pick(&[2usize, 3, 4, 8]), n1: None, mode: if rng.chance(2, 3) { ParMode::Delay(rng.next() >> 1) } else { ParMode::Free } }); }
+            _ => { spec.cfg.par = Some(Par { n0: *rng.pick(&[2usize, 3, 4, 8]), n1: None, mode: if rng.chance(2, 3) && !spec.is_big() { ParMode::Delay(rng.next() >> 1) } else { ParMode::Free } }); }
         }
         with_family!(spec.family, c09_case, &spec);
         true
@@ -348,7 +348,7 @@ pub fn run_c15(shard: &Shard) -> i32 {
         let mut spec = random_spec(rng, &p);
         match shard.idx % 4 {
             2 => { spec.cfg.par = Some(Par { n0: 1 + rng.usize(3), n1: None, mode: sched_mode(rng, false) }); }
-            3 => { spec.cfg.par = Some(Par { n0: *rng.pick(&[2usize, 3, 4, 8]), n1: None, mode: if rng.chance(2, 3) { ParMode::Delay(rng.next() >> 1) } else { ParMode::Free } }); }
+            3 => { spec.cfg.par = Some(Par { n0: *rng.pick(&[2usize, 3, 4, 8]), n1: None, mode: if rng.chance(2, 3) && !spec.is_big() { ParMode::Delay(rng.next() >> 1) } else { ParMode::Free } }); }
             _ => {}
         }
         with_family!(spec.family, c15_case, &spec);
